@@ -295,8 +295,9 @@ theorem push_heap (st : State) (h : WF st) (ho : HeapOrd st st.heap.size) (id : 
       kv { items := setQidx ((id, it) :: st.items) id st.heap.size, heap := st.heap.push id } x
         = kv st x := by
     intro x hx
-    have hkx : hkey { items := setQidx ((id, it) :: st.items) id st.heap.size,
-        heap := st.heap.push id } x = hkey st x := by
+    have hkx : hkey
+        { items := setQidx ((id, it) :: st.items) id st.heap.size, heap := st.heap.push id } x
+          = hkey st x := by
       unfold hkey
       simp only [Array.getD_eq_getD_getElem?, Array.getElem?_push]
       have : ¬ x = st.heap.size := by omega
